@@ -539,7 +539,7 @@ def explore(rng, tier, stats):
                 ks = list(range(1 + off, n + 1, stride))
                 stats.probes["terminal_op_strided"] += 1
         else:
-            m = min(n, 16 if not doomed else 8)
+            m = min(n, 10 if not doomed else 5)
             ks = sorted(rng.sample(range(1, n + 1), m))
         for k in ks:
             fault = {"kind": "interrupt.line", "k": k, "exc": prog.exc_kind}
